@@ -50,6 +50,7 @@ type LoopSpec struct {
 
 type CallsiteSpec struct {
 	Pattern  string
+	After    []*Clause // "updateafter g = e": ghost update after the call, `result`/`result0..` bound to what it returned
 	Assumes  []*Clause // "assume" clauses: taken for granted after the call (listed as assumptions); pre(e) = value before the call
 	Requires []*Clause
 	Updates  []*Clause
@@ -454,6 +455,20 @@ func (db *SpecDB) LoadSpecFile(path, pkg string, assumed bool) error {
 				}
 			}
 			cur.Callsites = append(cur.Callsites, curCS)
+		case "updateafter":
+			if curCS == nil {
+				return fail(fmt.Errorf("updateafter outside callsite"))
+			}
+			ma := regexp.MustCompile(`^(\w+)\s*=\s*(.*)$`).FindStringSubmatch(rest)
+			if ma == nil {
+				return fail(fmt.Errorf("bad updateafter"))
+			}
+			ca, err := mkClause("update", ma[2])
+			if err != nil {
+				return err
+			}
+			ca.Name = ma[1]
+			curCS.After = append(curCS.After, ca)
 		case "update":
 			if curCS == nil {
 				return fail(fmt.Errorf("update outside callsite"))
